@@ -401,6 +401,15 @@ func symD(v ssa.Value, d int) string {
 			return "len(" + objKeyOf(x.Call.Args[0]).s + ".data)"
 		}
 		return "call:" + x.Name()
+	case *ssa.Slice:
+		lo, hi := "", ""
+		if x.Low != nil {
+			lo = symD(x.Low, d+1)
+		}
+		if x.High != nil {
+			hi = symD(x.High, d+1)
+		}
+		return symD(x.X, d+1) + "[" + lo + ":" + hi + "]"
 	case *ssa.Phi:
 		return "phi:" + x.Name()
 	}
